@@ -269,7 +269,7 @@ def _geom_classes(prefix, case):
 # part 2: batch invariance
 # ================================================================================================
 def _check_invariance(ctx, case):
-    Q = q()
+    q()
     J = int(case["gpts"][0]) * int(case["gpts"][1])
     hi = bool(case["hi"])
     learn = list(case["learn"])
@@ -312,11 +312,17 @@ def _check_invariance(ctx, case):
         L0b, G0b, tb0b = run(J)
         if len(tb0) != 1:
             _fail(case, "batch_size=%d (all patterns) ran %d training batches instead of one" % (J, len(tb0)))
-        if float(L0).hex() != float(L0b).hex() or tb0 != tb0b or any(not np.array_equal(G0[k], G0b[k]) for k in G0):
+        if tb0 != tb0b:
             _fail(
                 case,
-                "two consecutive reconstruct(num_iters=1, reset=True, batch_size=%d) runs of the same instance differ "
-                "(losses %.9g vs %.9g): reset does not restore the seeded initial state" % (J, L0, L0b),
+                "two consecutive reconstruct(num_iters=1, reset=True, batch_size=%d) runs of the same seeded instance visit "
+                "the patterns in different orders (%s vs %s): reset does not restore the seeded state" % (J, tb0[0], tb0b[0]),
+            )
+        if float(L0).hex() != float(L0b).hex() or any(not np.array_equal(G0[k], G0b[k]) for k in G0):
+            _fail(
+                case,
+                "two consecutive reconstruct(num_iters=1, reset=True, batch_size=%d) runs of the same seeded instance give "
+                "different losses or gradients (losses %.9g vs %.9g): reset does not restore the initial state" % (J, L0, L0b),
             )
         n_train = len(tb0[0])
         if n_train < 1:
@@ -346,7 +352,10 @@ def _check_invariance(ctx, case):
             for k in G0:
                 if G[k].shape != G0[k].shape:
                     _fail(case, "gradient of %s changes shape with the batch size" % k)
-                errG = float(np.max(np.abs(G[k] - G0[k]))) / gmax[k] if gmax[k] > 0 else float(np.max(np.abs(G[k])))
+                if gmax[k] == 0.0:  # no scale to compare against
+                    ctx.count("inv:zero_full_batch_gradient_skipped")
+                    continue
+                errG = float(np.max(np.abs(G[k] - G0[k]))) / gmax[k]
                 _stat(pre + "grad", errG / tol["grad"])
                 if not errG <= tol["grad"]:
                     _fail(
@@ -360,7 +369,7 @@ def _check_invariance(ctx, case):
 # part 2: seeded determinism
 # ================================================================================================
 def _check_determinism(ctx, case):
-    Q = q()  # noqa: F841
+    q()
     J = int(case["gpts"][0]) * int(case["gpts"][1])
     hi = bool(case["hi"])
     b = case["b"]
@@ -392,12 +401,18 @@ def _check_determinism(ctx, case):
             return losses, vlosses, spy.take()
 
         first_reset = bool(case["first_reset"])
-        la, va, logA = run(A, spyA, first_reset, True, "reconstruct (instance 1)")
-        epochs = _epochs(case, logA, J, iters, bs)
+        classes = _geom_classes("det", case) + ["det:opt_" + case["opt"]]
+        try:
+            la, va, logA = run(A, spyA, first_reset, True, "reconstruct (instance 1)")
+            epochs = _epochs(case, logA, J, iters, bs)
+        except core.Violation:
+            ctx.record(case, True, classes)
+            raise
+        # non-triviality is judged on what was observed: with >= 2 training batches per epoch the
+        # shuffle order (hence the seeded rng) influences the optimisation path
         nb = len(epochs[0][0])
-        has_val = bool(epochs[0][1])
-        classes = _geom_classes("det", case) + ["det:opt_" + case["opt"], "det:batches_%s" % ("1" if nb == 1 else "2+")]
         n_train = sum(len(x) for x in epochs[0][0])
+        classes.append("det:batches_%s" % ("1" if nb == 1 else "2+"))
         if n_train % bs:
             classes.append("det:b_not_dividing")
         if bs > n_train:
@@ -405,8 +420,6 @@ def _check_determinism(ctx, case):
         ctx.record(case, nb >= 2, classes)
         if len(la) != iters:
             _fail(case, "reconstruct(num_iters=%d) recorded %d iteration losses" % (iters, len(la)))
-        if has_val and len(va) != iters:
-            _fail(case, "%d epochs with a validation pass recorded %d validation losses" % (iters, len(va)))
 
         lc, vc, logC = run(C, spyC, first_reset, True, "reconstruct (instance 2, same seeds)")
         if logA != logC:
@@ -571,7 +584,7 @@ def search(ctx):
     run("split", split_cases(), 400, 4000)
     # part 2 (the invariance budget is stratified over the loss types: each has its own scaling branch)
     for lt in LOSS_TYPES:
-        run("invariance:" + lt, invariance_cases(lt), 8, 30)
-    run("determinism", determinism_cases(), 50, 200)
+        run("invariance:" + lt, invariance_cases(lt), 7, 30)
+    run("determinism", determinism_cases(), 40, 200)
     for k, v in STATS.items():
         ctx.extra["max_err_over_tol: " + k] = round(v, 6)
